@@ -197,5 +197,4 @@ func buildSpec(repo, harnessDir string, pkgDirs []string, modfile string) (LoadS
 	return spec, nil
 }
 
-
 var _ = types.Typ
